@@ -14,7 +14,7 @@
 (*   hist          stack of complete snapshots (everything but hist)       *)
 (*   pre           "" | "success" | "discouraged": BIP342 OP_SUCCESSx scan *)
 (***************************************************************************)
-EXTENDS ScriptVM, Hashes
+EXTENDS ScriptVM, Hashes, TLC
 
 NoTce == [active |-> FALSE, control |-> <<>>, program |-> <<>>, i |-> 0, k |-> <<>>]
 
@@ -108,6 +108,32 @@ Exec(s, ops) ==
     LET ctx2 == [s.ctx EXCEPT !.script = ops]
         v == ExecLoop(ctx2, [s.vm EXCEPT !.pc = 0])
     IN [s EXCEPT !.vm = [v EXCEPT !.pc = s.vm.pc, !.cbegin = s.vm.cbegin, !.cspos = s.vm.cspos, !.oppos = s.vm.oppos]]
+
+(******************************* listing (C12) *******************************)
+\* how an operation is shown: the pushed bytes as hex, or Bitcoin Core's name of the opcode (small integers without OP_)
+DisplayName(op) ==
+    IF op = OP_0 THEN "0" ELSE IF op = OP_1NEGATE THEN "-1"
+    ELSE IF op >= OP_1 /\ op <= OP_16 THEN ToString(op - 80)
+    ELSE OpName[op]
+RECURSIVE OpLines(_, _)
+OpLines(script, pc) ==
+    IF pc >= Len(script) THEN <<>>
+    ELSE LET g == GetOp(script, pc)
+         IN IF ~g.ok THEN <<>>
+            ELSE <<IF g.data # <<>> THEN BytesToHex(g.data) ELSE DisplayName(g.op)>> \o OpLines(script, g.next)
+\* last pushed item of a script (the P2SH redeem script of a push-only scriptSig)
+LastPush(script) == LET o == Ops(script)[2] IN IF o = <<>> THEN <<>> ELSE o[Len(o)].data
+\* The listing of a whole session, one entry per step the session will take (the final 'finished' step has no entry):
+\* commitment steps, operations of the first script, [header + scriptPubKey], [header + P2SH redeem script]
+ExpectedListing(s0) ==
+    LET t == s0.tce
+        commit == IF t.active THEN [i \in 1..PathLen(t.control) |-> "Branch: " \o BytesToHex(PathNode(t.control, i - 1))] \o <<"CheckTapTweak">> ELSE <<>>
+        first == OpLines(s0.ctx.script, 0)
+        spk == IF s0.succ # <<>> THEN <<"<<< scriptPubKey >>>">> \o OpLines(s0.succ, 0) ELSE <<>>
+        redeemOf == IF s0.succ # <<>> THEN LastPush(s0.ctx.script) ELSE IF s0.p2shStack # <<>> THEN Top(s0.p2shStack, 1) ELSE <<>>
+        hasP2sh == "P2SH" \in s0.ctx.flags /\ ((s0.succ # <<>> /\ IsP2SH(s0.succ)) \/ (s0.succ = <<>> /\ s0.p2sh /\ s0.p2shStack # <<>>))
+        p2sh == IF hasP2sh THEN <<"<<< P2SH script >>>">> \o OpLines(redeemOf, 0) ELSE <<>>
+    IN commit \o first \o spk \o p2sh
 
 \* n-fold Step from a session (used by RewindExact)
 RECURSIVE StepN(_, _)
